@@ -740,8 +740,14 @@ func cmdDel(args *skel.CmdArgs) error {
 		// Get IPs allocated to this handle so we can clear their attributes
 		ips, err := calicoClient.IPAM().IPsByHandle(ctx, handleID)
 		if err != nil {
-			logger.WithError(err).Warn("Failed to get IPs by handle")
-			return err
+			if _, ok := err.(cerrors.ErrorResourceDoesNotExist); !ok {
+				logger.WithError(err).Warn("Failed to get IPs by handle")
+				return err
+			}
+			// Nothing is allocated to this handle (e.g. the ADD failed, or an earlier
+			// DEL already released it): there is nothing to clean up.
+			logger.Info("Handle doesn't exist, no addresses to clean up")
+			ips = nil
 		}
 
 		// Build expected owner for verification
